@@ -145,6 +145,29 @@ class Part(HasTraits):
     w = VW(0)
 
 
+class DInner(HasTraits):
+    value = Int()
+
+
+class DChild(HasTraits):        # link object of the auxiliary parent (opaque op SwapDeep)
+    inner = Instance(DInner)
+
+    def _inner_default(self):
+        # user code run by the re-hook of an extended-name listener, i.e. from a change handler of `child`
+        if PLAN["kind"] == "handler" and PLAN["k"] == 11:
+            PLAN["fired"] = True
+            raise PLAN["exc"]("injected")
+        return DInner()
+
+
+class DParent(HasTraits):       # a second object: legacy listener with a three-link name, a static and a later handler
+    child = Instance(DChild)
+    static_calls = Int()
+
+    def _child_changed(self):
+        self.static_calls += 1
+
+
 class Child(HasTraits):         # the intermediate link of the extended name 'child.value' (ops RegDot / UnregDot / ReadCh / SetCV)
     value = Int()
 
@@ -255,6 +278,12 @@ def make():
     a.deleg = ProtoD(pv=1)
     a.u = 1
     a.__dict__["_h10"] = dyn_cv
+    dp_ = DParent(child=DChild())
+    dp_.child.inner                                    # created, so that the registration itself runs no failing code
+    dp_.__dict__["_later"] = []
+    dp_.on_trait_change(lambda new: None, "child.inner.value")
+    dp_.on_trait_change(lambda new: dp_.__dict__["_later"].append(1), "child")
+    a.__dict__["_dparent"] = dp_
     a.on_trait_change(dyn_pv, "pv")
     a.observe(obs_x, "x")
     a.observe(obs_l, "l:items")
@@ -263,7 +292,13 @@ def make():
     a.__dict__["_parts"] = (pb, pc)
     a.sync_trait("w", pb, mutual=True)
     a.sync_trait("w", pc, mutual=True)
-    a.on_trait_change(lambda: None, "dp")     # a listener, so that a change of x recomputes dp for the notification
+    def dp_listener(new):
+        # a listener, so that a change of x recomputes dp for the notification.  It must only ever be told a value the
+        # getter computed: when the getter raises (handler plan 7) the notification does not take place at all
+        if type(new) is not int:
+            a.__dict__["_dp_bogus"] = a.__dict__.get("_dp_bogus", 0) + 1
+
+    a.on_trait_change(dp_listener, "dp")
     # the observer expression of ObsAdd / ObsRemove has two parallel graphs: a named trait first (its registration
     # succeeds or is removed before the user filter of the second graph is called, so a raising filter leaves
     # something to undo in apply_observers), then the filtered one
@@ -336,7 +371,9 @@ def aux(a):
     vals = [num(a.dp)] + [num(a.__dict__.get("zz%d" % i, 0)) for i in range(a.__dict__["_vz"])]
     vals += [num(a.w), num(a.__dict__["_parts"][1].w)]        # not the first partner: its own validator may have refused
     vals.append(-5 if a.ade is None else num(getattr(a.ade, "v", -7)))
-    vals += [num(a.pv), num(a.deleg.pv), num(a.__dict__.get("pv", -3))]
+    vals += [num(a.pv), num(a.deleg.pv), num(a.__dict__.get("pv", -3)), a.__dict__.get("_dp_bogus", 0)]
+    dp_ = a.__dict__["_dparent"]
+    vals += [dp_.static_calls, len(dp_.__dict__["_later"])]      # the other handlers of the auxiliary parent all ran
     h = 0
     for v in vals:
         h = (h * 1000003 + v + 7) % (2 ** 55)
@@ -405,6 +442,8 @@ def execute(a, op, echo):
         a.ade = SRC[op[1]](v=op[2])
     elif k == "SetW":
         a.w = op[1]
+    elif k == "SwapDeep":
+        a.__dict__["_dparent"].child = DChild()
     elif k == "SetPW":
         a.__dict__["_parts"][1].w = op[2]      # always on the second partner: the first one's validator is the faulty one
     elif k == "SetPV":
